@@ -110,6 +110,7 @@ type Result struct {
 	Groups     [][]int // completed multi-item responses
 	Final      error   // End, the terminal error, or nil if the consumer stopped early
 	AfterFinal error   // for a terminal error: what one more call returned (nil if not made)
+	AfterEnd   error   // set if a call made after End did not report End again (C07's business; recorded, not judged here)
 	Sources    []Source
 	E          error   // the final-error sentinel of this run
 	Transients []error // the transient sentinels, in script order
@@ -350,6 +351,19 @@ type runsSubject struct {
 	outer   stream.Stream[stream.Stream[int]]
 	inner   stream.Stream[int]
 	partial []int
+	// innerLast: a run the consumer still holds when it stops is closed after the outer stream (else before)
+	innerLast bool
+}
+
+// closeRuns closes the outer stream of a Runs and the run the consumer still holds, in either order.
+func closeRuns(outer stream.Stream[stream.Stream[int]], inner stream.Stream[int], innerLast bool) {
+	if inner != nil && !innerLast {
+		inner.Close()
+	}
+	outer.Close()
+	if inner != nil && innerLast {
+		inner.Close()
+	}
 }
 
 func (a *runsSubject) Next(ctx context.Context) Response {
@@ -380,13 +394,15 @@ func (a *runsSubject) Next(ctx context.Context) Response {
 		}
 	}
 }
-func (a *runsSubject) Close() { a.outer.Close() }
+func (a *runsSubject) Close() { closeRuns(a.outer, a.inner, a.innerLast) }
 
 // runsSkipSubject reads only the first item of every run and then moves on: the outer stream has to
 // skip the unread rest of the run itself (and must cope with a failure while doing so).
 type runsSkipSubject struct {
-	outer stream.Stream[stream.Stream[int]]
-	inner stream.Stream[int]
+	outer     stream.Stream[stream.Stream[int]]
+	inner     stream.Stream[int]
+	held      stream.Stream[int] // the run that was abandoned last (never closed by the consumer so far)
+	innerLast bool
 }
 
 func (a *runsSkipSubject) Next(ctx context.Context) Response {
@@ -405,10 +421,16 @@ func (a *runsSkipSubject) Next(ctx context.Context) Response {
 		}
 		return Response{Err: err} // the consumer re-issues this call
 	}
-	a.inner = nil // abandon the rest of the run
+	a.held, a.inner = a.inner, nil // abandon the rest of the run
 	return Response{Items: []int{x}, Complete: true}
 }
-func (a *runsSkipSubject) Close() { a.outer.Close() }
+func (a *runsSkipSubject) Close() {
+	in := a.inner
+	if in == nil {
+		in = a.held // closing a run that has been abandoned long ago is as good as never closing it
+	}
+	closeRuns(a.outer, in, a.innerLast)
+}
 
 // peekSubject peeks before every Next; the peeked value must equal what Next then returns.
 type peekSubject struct {
@@ -416,12 +438,21 @@ type peekSubject struct {
 	peeked bool
 	val    int
 	bad    error
+	sawEnd bool
 }
 
 func (a *peekSubject) Next(ctx context.Context) Response {
+	if a.sawEnd { // after Peek has reported the end: Next is asked directly (as a reducer handed this stream would)
+		x, err := a.p.Next(ctx)
+		if err != nil {
+			return Response{Err: err}
+		}
+		return Response{Items: []int{x}, Complete: true}
+	}
 	if !a.peeked {
 		v, err := a.p.Peek(ctx)
 		if err != nil {
+			a.sawEnd = err == stream.End
 			return Response{Err: err}
 		}
 		a.peeked, a.val = true, v
@@ -673,9 +704,9 @@ func Build(c Case) (Subject, *Env, error) {
 	case "While":
 		return itemStream{stream.While(e.pre(e.mainSource()), e.keep)}, e, nil
 	case "Runs":
-		return &runsSubject{outer: stream.Runs(e.pre(e.mainSource()), e.same)}, e, nil
+		return &runsSubject{outer: stream.Runs(e.pre(e.mainSource()), e.same), innerLast: len(c.Input)%2 == 1}, e, nil
 	case "RunsSkip":
-		return &runsSkipSubject{outer: stream.Runs(e.pre(e.mainSource()), e.same)}, e, nil
+		return &runsSkipSubject{outer: stream.Runs(e.pre(e.mainSource()), e.same), innerLast: len(c.Input)%2 == 1}, e, nil
 	case "Flatten":
 		inners := e.nestSources(!c.Fault.Outer)
 		ss := make([]stream.Stream[int], len(inners))
@@ -794,6 +825,15 @@ func Consume(c Case, subj Subject, e *Env, pace func()) *Result {
 		}
 		if r.Err == stream.End {
 			res.Final = stream.End
+			// a consumer (or a wrapper around this stream) that asks again is told the same - and nothing that has
+			// been let go of at the end is touched again
+			if !res.Reducer {
+				for k := 0; k < 2; k++ {
+					if r2 := subj.Next(bg); r2.Err != stream.End {
+						res.AfterEnd = fmt.Errorf("after reporting the end, Next #%d returned (%v, %v)", k+1, r2.Items, r2.Err)
+					}
+				}
+			}
 			break
 		}
 		resumable := errors.Is(r.Err, e.E)
